@@ -388,11 +388,14 @@ def search_set(run):
 PROPS['C06'] = {
     'modules': ['IpcModel.Props.C06'],
     'theorems': ['C06.C06_no_lost_wakeup', 'C06.C06_init', 'C06.C06_select_enabled', 'C06.C06_cap_pos', 'RSetP.inv_step'],
-    'scenarios': set_scen(800, 12000),
+    'scenarios': (lambda a: (lambda tier, seed: a(tier, seed) + [{'args': ['crash', '--shape', str(i), '--tier', tier, '--observer', 'select']}
+                                                       for i in ((1, 2, 4, 5) if tier == 'thorough' else (1, 2))]))(set_scen(800, 12000)),
     'search': search_set,
     'rule': ('seeded scripts of 6..35 operations {create channel, add to set, send small / multi-packet, drop sender, select (issued only when something is pending), '
              'EINTR injected into every 4th wait} over up to 6 members (every 5th case up to 30, so that more than 10 are ready at once), then selects until nothing is '
-             'pending; per-member event sequences and ids compared with the model; non-trivial = more than one select; distinct = distinct script'),
+             'pending; per-member event sequences and ids compared with the model; crash --observer select: a member whose sender process is killed before every counted '
+             'system call of a 1..3-packet send, with 0 or 1 surviving sender: the closure (or the survivor\'s message) must still be reported; '
+             'non-trivial = more than one select / a crashed sender; distinct = distinct script'),
     'explanation': ('no-lost-wake-up invariant proved for all interleavings and all cap values; select enabled whenever something is pending; the real set compared with '
                     'the model per member (exactly once, order, closed last) on seeded scripts incl. >10 ready members, traffic queued before add, EINTR'),
     'assumptions': ['epoll edge-triggered ready list modelled as: append on arrival/closure/registration-while-ready unless present; at most cap tokens per wait',
